@@ -256,7 +256,14 @@ func (e *routerEnv) observe() string {
 	return fmt.Sprintf("obs list=[%s] last=[%s] pos=%d waiters=%d alive=[%s] sent=[%s] calls=[%s]", strings.Join(list, ","), strings.Join(last, ","), pos, waiters, strings.Join(al, ","), log, strings.Join(cs, " "))
 }
 
+type leastPick struct {
+	at   int // index into the RoundTripper's log of the address this call was sent to
+	list []string
+	lat  map[string]int64
+}
+
 type routerResult struct {
+	leastPicks []leastPick
 	stormBad   []string
 	stormCalls int
 	timing     bool
@@ -405,6 +412,14 @@ func runRouterScenario(sc routerScenario) *routerResult {
 			for i := 0; i < n; i++ {
 				next++
 				t0 := time.Now()
+				if sc.Policy == "least" {
+					// C17: what the estimates were when this call was scheduled
+					l0, _, _, _, _, _, lat := e.c.VerifClientSnapshot()
+					e.rt.mu.Lock()
+					at := len(e.rt.log)
+					e.rt.mu.Unlock()
+					res.leastPicks = append(res.leastPicks, leastPick{at: at, list: l0, lat: lat})
+				}
 				e.start(next, form)
 				e.waitCalls(2 * time.Second) // sequential calls
 				if time.Since(t0) > 25*time.Millisecond {
@@ -690,6 +705,27 @@ func checkRouterTimed(sc routerScenario, r *routerResult) []connVerdict {
 	e := r.env
 	e.mu.Lock()
 	defer e.mu.Unlock()
+	// C17 LeastTime: a pick that is not the scenario's first (the initial probe) and falls within one
+	// Tick (an hour here) goes to a live target whose estimate is minimal
+	e.rt.mu.Lock()
+	log := append([]string(nil), e.rt.log...)
+	e.rt.mu.Unlock()
+	for i, p := range r.leastPicks {
+		if i == 0 || p.at >= len(log) || len(p.list) < 2 {
+			continue
+		}
+		got := log[p.at]
+		min := int64(1) << 62
+		for _, a := range p.list {
+			if p.lat[a] < min {
+				min = p.lat[a]
+			}
+		}
+		if l, ok := p.lat[got]; ok && contains(p.list, got) && l > min {
+			add("C17", "least-time-minimal", "C17/least-not-minimal", fmt.Sprintf("LeastTime sent a non-probe call to %s (estimate %d) although a live target has estimate %d (live %v, estimates %v)", got, l, min, p.list, p.lat))
+			break
+		}
+	}
 	for _, b := range r.stormBad {
 		add("C16", "routes-to-current-targets", "C16/stale-target-after-update/storm", b+fmt.Sprintf(" (%d calls in the storm)", r.stormCalls))
 		break
@@ -728,6 +764,10 @@ func routerCorpus() []routerScenario {
 	mk("director", "rr", "health A 1", "health Z 1", "update A", "wait", "director Z", "route 2", "director -", "route 2")
 	mk("random", "rand", "health A 1", "health B 1", "health C 1", "update A,B,C", "wait", "route 12", "health C 0", "route 6", "wait", "route 6")
 	mk("least", "least", "health A 1", "health B 1", "health C 1", "update A,B,C", "wait", "setlat A 500", "setlat B 300", "setlat C 900", "gos 1", "gos 1", "setlat B 2000", "gos 2", "setlat A 5000", "rts 2")
+	mk("least-every-target-minimal-in-turn", "least", "health A 1", "health B 1", "health C 1", "update A,B,C", "wait", "gos 1", "setlat A 100", "setlat B 500", "setlat C 900", "gos 2",
+		"setlat A 900", "setlat B 100", "gos 2", "setlat B 900", "setlat C 100", "rts 2", "setlat C 5000", "setlat A 50", "gos 2")
+	mk("least-five-targets", "least", "health A 1", "health B 1", "health C 1", "health D 1", "health E 1", "update A,B,C,D,E", "wait", "gos 1", "setlat A 500", "setlat B 400", "setlat C 300", "setlat D 200", "setlat E 100", "gos 2",
+		"setlat E 900", "gos 2", "setlat D 900", "gos 2", "setlat C 900", "gos 2", "setlat B 900", "gos 2")
 	mk("least-probe-rotation", "leastprobe", "health A 1", "health B 1", "health C 1", "update A,B,C", "wait", "route 6")
 	mk("fallback", "rr", "health A 1", "update A", "wait", "route 1", "fallback 300", "park 2 call", "sleep 400", "wait", "settle", "route 1")
 	return out
